@@ -207,6 +207,12 @@ def gen_gfa1(rng, nseg=None, with_paths=True, with_containments=True, tags=True,
                 f += rand_tags(rng, {}, 1)
             lines.append('\t'.join(f))
             info['paths'].append({'name': name, 'steps': steps, 'ovs': ovs_s})
+    if with_paths and rng.random() < 0.3:
+        # a path over one segment needs no link at all
+        n = rng.choice(names)
+        o = rng.choice('+-')
+        lines.append('\t'.join(['P', 'p1s', n + o, '*']))
+        info['paths'].append({'name': 'p1s', 'steps': [(n, o)], 'ovs': '*'})
     return lines, info
 
 
